@@ -94,12 +94,21 @@ func newProcessor() *mainsvc.FFooProcessor { return mainsvc.NewFFooProcessor(saf
 
 var stackMu sync.Mutex
 
-// goroutinesWith counts goroutines whose stack mentions sub.
-func goroutinesWith(sub string) int {
+// goroutinesWith counts the goroutines that are INSIDE library function fn
+// (e.g. "(*fNatsServer).worker"): fn is one of their frames.  "created by fn"
+// lines do not count - a goroutine that fn started can outlive fn.
+func goroutinesWith(fn string) int {
+	want := frugalPkg + fn
 	c := 0
 	for _, g := range strings.Split(allStacks(), "\n\n") {
-		if strings.Contains(g, sub) {
-			c++
+		for _, l := range strings.Split(g, "\n") {
+			if !strings.HasPrefix(l, frugalPkg) {
+				continue
+			}
+			if k := strings.LastIndex(l, "("); k > 0 && l[:k] == want {
+				c++
+				break
+			}
 		}
 	}
 	return c
